@@ -4,7 +4,7 @@
    (Total2.extract_total / insert_cb_h_total)? *)
 From Coq Require Import List ZArith Bool.
 Import ListNotations.
-From V Require Import Valid.Hier Model.Graph Model.Edits Model.Extract Model.CbHier Model.Total2 Model.Applic.
+From V Require Import Valid.Hier Model.Graph Model.Edits Model.Extract Model.CbHier Model.Total2 Model.Applic Model.LoopHierApplic.
 Local Open Scope Z_scope.
 
 Definition pre_of_extract (rows : list (list Z)) : Z :=
@@ -22,11 +22,27 @@ Definition pre_of_extract (rows : list (list Z)) : Z :=
   | _, _ => 0
   end.
 
-(* do the hypotheses of the universal path theorem (Applic.extract_keeps_walks_b) hold for this call? *)
+(* do the hypotheses of the universal path theorem (Applic.extract_keeps_walks_b) hold for this call, and is
+   the model's result fit for flattening (so that "equal to the implementation's result up to the order of
+   the node list" means "the same walks": HierEquiv.compared_equal_same_walks)? *)
 Definition walk_of_extract (rows : list (list Z)) : Z :=
   let '(br, ar, op, st) := split_x rows in
   match decode br, op with
-  | Some (_, h), lvl :: hd :: ex :: rk :: rname :: r => if walk_pre_extract h lvl hd rname then 1 else 0
+  | Some (_, h), lvl :: hd :: ex :: rk :: rname :: r =>
+    if walk_pre_extract h lvl hd rname &&
+       match take_list r with
+       | Some (blocks, r1) =>
+         match take_list r1 with
+         | Some (entries, []) =>
+           match extract h lvl blocks entries hd ex rk rname with
+           | XOk h' => flat_okb h' (-1) true
+           | _ => true
+           end
+         | _ => false
+         end
+       | None => false
+       end
+    then 1 else 0
   | _, _ => 0
   end.
 
@@ -61,7 +77,13 @@ Definition walk_of_cbh (rows : list (list Z)) : Z :=
       match take_list r1 with
       | Some (Ss, r2) =>
         match take_list r2 with
-        | Some (names, []) => if walk_pre_cbh h lvl new var preds Ss names then 1 else 0
+        | Some (names, []) =>
+          if walk_pre_cbh h lvl new var preds Ss names &&
+             match insert_cb_h h lvl new var preds Ss names with
+             | XOk h' => flat_okb h' (-1) true
+             | _ => true
+             end
+          then 1 else 0
         | _ => 0
         end
       | None => 0
